@@ -469,3 +469,52 @@ def run(ctx):
             (len(rr) == 1 and isinstance(rr[0].value, ast.Call) and src(rr[0].value.func) == "self.process" and
              {k.arg for k in rr[0].value.keywords if k.arg} == {"xi", "x0", "dt"} and src([k.value for k in rr[0].value.keywords if k.arg == "dt"][0]) == "self.dt")
         ctx.check("R29.4", f"{call.key}::calls the process with the excitations, the initial state and the stored step sizes", okk, src(rr[0].value) if rr else None, call)
+
+
+def r29_5(ctx, m):
+    """independent prior excitations for every component of the initial state"""
+    from ..util import cfg_of, known_atoms
+    ctx.rule("R29.5", "process constructors that accept the initial state as (mean, std): where the constructor validates the shape S "
+                      "of the state (`x0[0].shape != S` raises), the prior built from the pair draws S independent excitations "
+                      "(NormalPrior(..., shape=S)); without the shape one scalar excitation is broadcast over all components and the "
+                      "initial position and slope become perfectly correlated", floor=1)
+    mod = m.module(GM)
+    n = 0
+    for fi in mod.all_functions:
+        x0s = [p for p in fi.params() if p == "x0"]
+        if not x0s:
+            continue
+        cfg = cfg_of(fi)
+        shapes = []
+        for nd in cfg.nodes:
+            if nd.kind == "stmt" and isinstance(nd.ast, ast.Raise):
+                for t, pol in known_atoms(cfg, nd.id):
+                    if isinstance(t, ast.Compare) and len(t.ops) == 1 and isinstance(t.ops[0], ast.NotEq) and pol and src(t.left) in ("x0[0].shape", "x0[1].shape") \
+                            and isinstance(t.comparators[0], ast.Tuple):
+                        shapes.append(t.comparators[0])
+                    if isinstance(t, ast.Compare) and len(t.ops) == 1 and isinstance(t.ops[0], ast.Eq) and not pol and src(t.left) in ("x0[0].shape", "x0[1].shape") \
+                            and isinstance(t.comparators[0], ast.Tuple):
+                        shapes.append(t.comparators[0])
+        if not shapes:
+            continue
+        ctx.saw_func(fi)
+        S = src(shapes[0])
+        priors = [c for c in walk_no_nested(fi.node) if isinstance(c, ast.Call) and call_name(c) in ("NormalPrior", "LogNormalPrior") and c.args and src(c.args[0]) == "x0[0]"]
+        for c in priors:
+            n += 1
+            kw = {k.arg: src(k.value) for k in c.keywords}
+            key = f"{fi.key}::`{short(c, 60)}` draws one excitation per state component"
+            if "shape" not in kw:
+                ctx.bad("R29.5", key, f"no shape given although the state is validated to have shape {S}: one excitation drives all components", fi, c)
+            else:
+                ctx.check("R29.5", key, kw["shape"] == S, f"shape={kw['shape']}, validated state shape {S}", fi, c)
+    if not n:
+        ctx.und("R29.5", f"{mod.relpath}::state priors", "no constructor with a validated state shape found", mod.relpath)
+
+
+_run_c29b = run
+
+
+def run(ctx):  # noqa: F811
+    _run_c29b(ctx)
+    r29_5(ctx, ctx.model)
